@@ -103,6 +103,12 @@ func runC07Burst(run *Run, seed int64, rounds int, rng *rand.Rand) (out []*c01Re
 	}
 	defer rig.Close()
 	names := []string{"a", "b"}
+	// a name first heard of at incarnation 0 (such a claim is not accepted), then properly announced
+	x.Send(Enc(TAlive, &WAlive{Incarnation: 0, Node: "z0", Addr: []byte{10, 9, 0, 9}, Port: 7946, Meta: []byte("z"), Vsn: DefaultVsn()}))
+	Settle(time.Millisecond)
+	x.Send(Enc(TAlive, &WAlive{Incarnation: 2, Node: "z0", Addr: []byte{10, 9, 0, 9}, Port: 7946, Meta: []byte("z"), Vsn: DefaultVsn()}))
+	Settle(time.Millisecond)
+	rig.C.CheckQuiescent()
 	inc := uint32(1)
 	for r := 0; r < rounds; r++ {
 		node := names[rng.Intn(2)]
